@@ -758,7 +758,7 @@ def run_case(case, ctx):
         obs = sysm.apply(obj, hist[-1])
         sysm.judge(ctx, hist[:-1], hist[-1], obj, obs, pre)
         return
-    budget = 200 if ctx.tier == 'quick' else 2000
+    budget = 500 if ctx.tier == 'quick' else 3000
     stats = X.bfs(sysm, ctx, case['depth'], deadline=time.time() + budget, prefix=case.get('prefix'),
                   expand=case.get('prefix') is not None,
                   label='%s/%s/%s/%s%s' % (case['system'], case['kind'], case.get('rational'), case.get('seed_index'),
